@@ -1,14 +1,24 @@
 From Coq Require Import extraction.Extraction extraction.ExtrOcamlBasic.
-From TU Require Import Base C15_Model C15_Seam.
-Definition run := run_C15.
-Definition check := check_C15.
-(** relational correspondence: the provider probe must be equal, and every
-    (word, exclusion set) the implementation returned along the chain must be an
-    element of the model's outcome set for that call (texts compared as code-point
-    strings, exclusion sets as sets). In grapheme mode additionally ([agree_C15u]):
-    every cluster list the harness supplies (words of the chain, table strings, returned
-    words) is [segment] of its concatenation; the harness' per-call seam flags are the
-    model's ([step_ss]: some explaining candidate is a chain) and the KF1-seam class flag is
-    exactly "explained, but by no chain"; the harness' [edit_safe] flag is the model's *)
-Definition agree (inp m i : val) : bool := agree_C15u inp m i.
+From TU Require Import RNG_Model.
+From TU Require Import Base C15_Model C15_Seam C15_Seeded.
+(** model output = (relational-model-output seeded): [seeded] = the results of the calls of the chain
+    (resp. the words corrupt_spelling returns) computed FROM THE SEED by the generator model
+    (RNG_Model: ChaCha8, random_range, WeightedIndex<f64>) and the generator's final position *)
+Definition run := run_C15s.
+(** the executable statement on the relational part of the implementation output; corrupt_spelling
+    stream: additionally two independent runs on the same text and seed returned the same words *)
+Definition check := check_C15s.
+(** two lines.
+    Relational (unchanged, on the first component of the outputs): the provider probe must be equal, and
+    every (word, exclusion set) the implementation returned along the chain must be an element of the
+    model's outcome set for that call (texts compared as code-point strings, exclusion sets as sets). In
+    grapheme mode additionally ([agree_C15u]): every cluster list the harness supplies (words of the
+    chain, table strings, returned words) is [segment] of its concatenation; the harness' per-call seam
+    flags are the model's ([step_ss]: some explaining candidate is a chain) and the KF1-seam class flag is
+    exactly "explained, but by no chain"; the harness' [edit_safe] flag is the model's.
+    EXACT ([exact_edit] / [exact_e2e] of C15_Seeded): given the seed, every (word, exclusion set) along
+    the chain equals the seeded model's, call for call, the generator ends at the same word position,
+    and the flags "weight > 0" of the tables are the signs of the f64 weights; corrupt_spelling stream:
+    the words of the corrupted text equal the seeded model's. *)
+Definition agree (inp m i : val) : bool := agree_C15s agree_C15u inp m i.
 Extraction "model.ml" run check agree.
